@@ -353,6 +353,89 @@ example : (match step demoNum demoCfg.kind (PM.new 3 (1 / 2)) demoCfg.dist 1 5 3
     | .ok ts _ pm' => ts == [[0, 2, 1], [0, 2, 1], [0, 1, 2]] && pm'.inner.all (fun x => decide (1 ≤ x ∧ x ≤ 5))
     | _ => false) = true := by decide +kernel
 
+/-! ### Exactly the tour's edges; bounded trails -/
+
+/-- "Exactly the edges between consecutive cities": a tour (no city twice) deposits on the pair `{i, j}` once
+if `i` and `j` are consecutive cities of the route (in either direction) and not at all otherwise — never
+twice, never on the closing edge. -/
+theorem tour_deposits_exactly_its_edges (route : List Nat) (hnd : route.Nodup) (i j : Nat) :
+    hits route i j = if (i, j) ∈ edges route ∨ (j, i) ∈ edges route then 1 else 0 := by
+  have h1 := hits_le_one route hnd i j
+  have h2 := hits_pos_iff route i j
+  split
+  · rename_i h; have := h2.mpr h; omega
+  · rename_i h
+    by_contra hne
+    exact h (h2.mp (Nat.pos_of_ne_zero hne))
+
+example : hits [0, 2, 1, 3] 1 2 = 1 ∧ hits [0, 2, 1, 3] 3 0 = 0 ∧ edges [0, 2, 1, 3] = [(0, 2), (2, 1), (1, 3)] := by
+  decide
+
+/-- Closed form of the max-min entry: `clamp(min, max, (1 - ρ)·τ_ij + hits·(1 / length))` for the rewarded
+tour (`hits` ∈ {0, 1} for a tour, `tour_deposits_exactly_its_edges`). -/
+theorem mmas_update_closed_form (pm : PM F) (ρ hi lo : F) (best : Ind F) (o : F) (i j : Nat) :
+    mmasSpecWith pm ρ hi lo (some (best, o)) i j =
+      clamp lo hi ((1 - ρ) * pm.getD i j 0 + (hits best.route i j : F) * (1 / o)) := by
+  simp only [mmasSpecWith, depositEdges_closed, hits]
+  congr 1
+  ring
+
+/-- Trails stay bounded (the exact-arithmetic counterpart of "finite"): if no trail exceeds `B`, every sampled
+route visits no city twice and is at least `L > 0` long, then after the ant-system update no trail exceeds
+`(1 - ρ)·B + m·c/L`, `m` the number of sampled ants. -/
+theorem as_trails_bounded (pm : PM F) (ρ c B L : F) (pop : List (Ind F)) (i j : Nat)
+    (hρ : ρ ≤ 1) (hc : 0 ≤ c) (hL : 0 < L) (hx : pm.getD i j 0 ≤ B)
+    (hnd : ∀ ind ∈ pop.drop 1, ind.route.Nodup)
+    (ho : ∀ ind ∈ pop.drop 1, ∃ o, ind.obj = some o ∧ L ≤ o) :
+    asSpec pm ρ c pop i j ≤ (1 - ρ) * B + ((pop.drop 1).length : F) * (c / L) := by
+  have ho' : ∀ ind ∈ pop.drop 1, ind.obj.isSome = true := by
+    intro ind h; obtain ⟨o, h1, _⟩ := ho ind h; simp [h1]
+  rw [as_update_closed_form pm ρ c pop i j ho']
+  have hsum : ∀ l : List (Ind F), (∀ ind ∈ l, ind.route.Nodup) → (∀ ind ∈ l, ∃ o, ind.obj = some o ∧ L ≤ o) →
+      (l.map (fun ind => (hits ind.route i j : F) * (c / ind.obj.getD 1))).sum ≤ (l.length : F) * (c / L) := by
+    intro l
+    induction l with
+    | nil => intro _ _; simp
+    | cons ind rest ih =>
+      intro h1 h2
+      obtain ⟨o, hobj, hLo⟩ := h2 ind (by simp)
+      have hh : (hits ind.route i j : F) ≤ 1 := by
+        exact_mod_cast hits_le_one ind.route (h1 ind (by simp)) i j
+      have hh0 : (0 : F) ≤ (hits ind.route i j : F) := by positivity
+      have hco : c / o ≤ c / L := div_le_div_of_nonneg_left hc hL hLo
+      have hco0 : 0 ≤ c / o := div_nonneg hc (le_trans hL.le hLo)
+      have hterm : (hits ind.route i j : F) * (c / o) ≤ c / L := by
+        calc (hits ind.route i j : F) * (c / o) ≤ 1 * (c / o) := mul_le_mul_of_nonneg_right hh hco0
+          _ = c / o := one_mul _
+          _ ≤ c / L := hco
+      have := ih (fun x hx => h1 x (by simp [hx])) (fun x hx => h2 x (by simp [hx]))
+      simp only [List.map_cons, List.sum_cons, List.length_cons, hobj, Option.getD_some]
+      push_cast
+      linarith
+  have h3 := hsum (pop.drop 1) hnd ho
+  have h4 : (1 - ρ) * pm.getD i j 0 ≤ (1 - ρ) * B := mul_le_mul_of_nonneg_left hx (by linarith)
+  linarith
+
+/-- Hence `B` is an invariant bound as soon as `ρ·B ≥ m·c/L`: along a run with `ρ > 0` the trails never exceed
+`max(τ₀, m·c/(ρ·L))`. -/
+theorem as_trails_invariant_bound (pm : PM F) (ρ c B L : F) (pop : List (Ind F)) (i j : Nat)
+    (hρ : ρ ≤ 1) (hc : 0 ≤ c) (hL : 0 < L) (hx : pm.getD i j 0 ≤ B)
+    (hnd : ∀ ind ∈ pop.drop 1, ind.route.Nodup)
+    (ho : ∀ ind ∈ pop.drop 1, ∃ o, ind.obj = some o ∧ L ≤ o)
+    (hB : ((pop.drop 1).length : F) * (c / L) ≤ ρ * B) :
+    asSpec pm ρ c pop i j ≤ B := by
+  have := as_trails_bounded pm ρ c B L pop i j hρ hc hL hx hnd ho
+  linarith
+
+example : asSpec (PM.new 3 (4 : ℚ)) (1 / 2) 3 [⟨[0, 1, 2], some 4⟩, ⟨[0, 2, 1], some 6⟩, ⟨[0, 1, 2], some 3⟩] 1 2 ≤ 4 :=
+  as_trails_invariant_bound _ _ _ 4 3 _ _ _ (by norm_num) (by norm_num) (by norm_num)
+    (by simp [PM.getD, PM.get?, PM.row?, PM.new])
+    (by intro ind h; simp at h; rcases h with rfl | rfl <;> decide)
+    (by intro ind h; simp at h; rcases h with rfl | rfl
+        · exact ⟨6, rfl, by norm_num⟩
+        · exact ⟨3, rfl, by norm_num⟩)
+    (by norm_num)
+
 end field
 
 end MahfModel.Props.C19
